@@ -48,6 +48,18 @@ DIR_METHODS = {'iterdir', 'rglob'}
 DIR_FUNCS = {'os.listdir', 'os.scandir', 'glob.glob', 'glob.iglob', 'os.walk', 'listdir', 'scandir', 'iglob'}
 
 
+def _is_empty_literal(e: ast.AST) -> bool:
+    if isinstance(e, ast.Constant):
+        return e.value is None or e.value == '' or e.value == ()
+    if isinstance(e, (ast.List, ast.Tuple, ast.Set)):
+        return all(_is_empty_literal(x) for x in e.elts)
+    if isinstance(e, ast.Dict):
+        return not e.keys
+    if isinstance(e, ast.Call) and not e.args and not e.keywords and attr_chain(e.func) in ('set', 'frozenset', 'list', 'tuple', 'dict', 'OrderedSet'):
+        return True
+    return False
+
+
 def unordered_source(e: ast.Call) -> T.Optional[str]:
     """Calls whose result order is decided by the file system or the process environment, not by the build definition."""
     f = e.func
@@ -83,6 +95,7 @@ class FC:
         self.opaque: T.Set[str] = set()       # bound by for / with / except / unpacking
         self.loads: T.Dict[str, T.List[ast.Name]] = {}
         self.nested: T.Dict[str, FuncNode] = {}
+        self.unpack: T.Dict[str, T.Tuple[ast.AST, int, int]] = {}     # name -> (unpacked value, position, arity) for `a, b = value`
         a = fn.args
         for p in a.posonlyargs + a.args + a.kwonlyargs:
             self.params[p.arg] = p.annotation
@@ -106,6 +119,12 @@ class FC:
                         self.values.setdefault(t.id, []).append(n.value)
                     else:
                         self._opaque_targets(t)
+                        if isinstance(t, (ast.Tuple, ast.List)) and all(isinstance(x, ast.Name) for x in t.elts):
+                            for i, x in enumerate(t.elts):
+                                if x.id in self.unpack:
+                                    self.unpack[x.id] = (n.value, -1, 0)      # unpacked twice: not tracked
+                                else:
+                                    self.unpack[x.id] = (n.value, i, len(t.elts))
             elif isinstance(n, ast.AugAssign) and isinstance(n.target, ast.Name):
                 self.aug.setdefault(n.target.id, []).append(n)
             elif isinstance(n, (ast.For, ast.AsyncFor)):
@@ -234,7 +253,12 @@ class Analyzer:
         if isinstance(e, ast.IfExp):
             return self._join([self.ty(e.body, fc, depth + 1), self.ty(e.orelse, fc, depth + 1)], fc)
         if isinstance(e, ast.BoolOp):
-            return self._join([self.ty(v, fc, depth + 1) for v in e.values], fc)
+            vals = list(e.values)
+            if isinstance(e.op, ast.Or):
+                # `x or <empty literal>`: the fallback has no order to speak of - the type is that of x
+                kept = [v for v in vals if not _is_empty_literal(v)]
+                vals = kept or vals
+            return self._join([self.ty(v, fc, depth + 1) for v in vals], fc)
         if isinstance(e, ast.BinOp) and isinstance(e.op, SET_OPS):
             l, r = self.ty(e.left, fc, depth + 1), self.ty(e.right, fc, depth + 1)
             if 'cycle' in (l.kind, r.kind) and 'set' not in (l.kind, r.kind):
@@ -290,6 +314,9 @@ class Analyzer:
         if name in owner.params and owner.params[name] is not None and name not in owner.values:
             return self.res.ann_ty(owner.params[name], owner.mod, f'parameter {name}: {norm(owner.params[name])}')
         if name in owner.opaque:
+            up = owner.unpack.get(name)
+            if up is not None and up[1] >= 0 and name not in owner.values and name not in owner.params:
+                return self._unpacked_ty(up[0], up[1], up[2], owner, depth)
             return UNKNOWN
         vals = owner.values.get(name, [])
         if not vals:
@@ -308,6 +335,21 @@ class Analyzer:
         if t.kind == 'set' and not t.why.startswith(name):
             t = t._replace(why=f'{name} = {short(vals[0], 50)}: {t.why}')
         return t
+
+    def _unpacked_ty(self, value: ast.AST, i: int, arity: int, fc: FC, depth: int) -> Ty:
+        """Type of position i of a value unpacked into `arity` names: a tuple display, or a value annotated Tuple[A, B, ...]."""
+        if isinstance(value, ast.BoolOp) and isinstance(value.op, ast.Or):
+            vals = [v for v in value.values if not _is_empty_literal(v)]
+            if len(vals) == 1:
+                value = vals[0]
+        if isinstance(value, (ast.Tuple, ast.List)) and len(value.elts) == arity:
+            return self.ty(value.elts[i], fc, depth + 1)
+        t = self.ty(value, fc, depth + 1)
+        if t.ann is not None and t.mod is not None and base_name(t.ann) in ('Tuple', 'tuple'):
+            args = sub_args(t.ann)
+            if len(args) == arity:
+                return self.res.ann_ty(args[i], t.mod, f'position {i} of {short(value, 40)}: {norm(t.ann)}')
+        return UNKNOWN
 
     def class_of(self, e: ast.AST, fc: FC, depth: int = 0) -> T.Optional[T.Tuple[Module, ast.ClassDef]]:
         """Repository class of the value of `e`, from self / annotations / constructors."""
